@@ -124,8 +124,7 @@ fn guarded<F: FnOnce() -> String>(f: F) -> String {
 }
 
 pub fn run(rest: &str) -> String {
-    // an optional third token `fx=…` tells the Lean driver which proposed repairs the tree under test contains; ignored here
-    let mut it = rest.splitn(3, ' ');
+    let mut it = rest.splitn(2, ' ');
     let (Some(ftok), Some(script)) = (it.next(), it.next()) else {
         return "bad-op".into();
     };
@@ -181,7 +180,7 @@ pub fn run(rest: &str) -> String {
 
 pub fn addr(rest: &str) -> String {
     let t: Vec<&str> = rest.split(' ').collect();
-    if t.len() != 2 && !(t.len() == 3 && t[2].starts_with("fx=")) {
+    if t.len() != 2 {
         return "bad-op".into();
     }
     let Some(raw) = wire::unhex(t[1]) else { return "bad-op".into() };
